@@ -496,8 +496,7 @@ class C16(Prop):
     def signature(self, case, obs, clause):
         if case['kind'] == 'fwd':
             return '%s:pubsub_fwd' % clause
-        vias = sorted(set(p['via'] for p in case['posts']))
-        return '%s:Session.crosswire_pubsub:%s' % (clause, '+'.join(vias))
+        return '%s:Session.crosswire_pubsub' % clause
 
     def shrink(self, case):
         if case['kind'] != 'net':
